@@ -196,12 +196,12 @@ class Sim:
 
         depth = [0]
 
-        def purge(node, target):
+        def purge(node, target, *a, **k):
             if depth[0] == 0:
                 sim._on_apply('purges', node.tag, target, None)
             depth[0] += 1
             try:
-                return o['purge'](node, target)
+                return o['purge'](node, target, *a, **k)
             finally:
                 depth[0] -= 1
 
